@@ -26,7 +26,7 @@ LOADERS = [
     ('load_model_from_scad_archive', ('C18',)),
     ('get_model', ('C19', 'C18')),
 ]
-SINK_CALLS = {'add_asset', 'add_association', 'add_attacker', 'add_entry_point', 'setattr'}
+SINK_CALLS = {'add_asset', 'add_association', 'add_attacker', 'add_entry_point', 'setattr', 'compromise'}
 CONDITIONAL_SINK_OK = {
     ('get_model', 'add_association'):
         'the Cypher query returns each linked pair once per direction: the second occurrence is skipped',
@@ -114,6 +114,7 @@ def run(ctx) -> list[Inst]:
                 file=rel, line=bad.lineno, props=props))
         if nsink_loops == 0:
             raise AnalysisError(f'R15: no element loop with a model sink recognised in {fname}')
+        insts += _order_and_break(ctx, f, fname, props)
         # ---------------------------------------------------------------- ENTRY
         for n in own_nodes(f.node):
             if isinstance(n, ast.Call) and _is_sink(n) == 'entry_points.append':
@@ -148,6 +149,10 @@ def run(ctx) -> list[Inst]:
             if isinstance(n, ast.Call) and _is_sink(n) == 'add_entry_point':
                 insts.append(Inst(RULE, fname, f'ENTRY: {stmt_text(n, 70)}', 'ok', file=rel, line=n.lineno,
                                   props=props))
+    # attach_attackers transfers the model's attackers and their entry points into the graph: same two rules
+    if prog.has_func('AttackGraph.attach_attackers'):
+        insts += _order_and_break(ctx, prog.func('AttackGraph.attach_attackers'), 'AttackGraph.attach_attackers',
+                                  ('C11', 'C09'))
     return insts
 
 
@@ -175,6 +180,44 @@ def _roots(n):
     if isinstance(a, (ast.FunctionDef, ast.ClassDef)):
         return []
     return [a]
+
+
+def _order_and_break(ctx, f, fname, props) -> list[Inst]:
+    """ORDER   elements are transferred in the order the input lists them (the native loader does): the iterable of
+               an element loop is not re-ordered (sorted / reversed / set): Model.add_asset renames duplicate names
+               in arrival order, ids are handed out in arrival order.
+       NOBREAK an element loop is never left by `break`: the remaining elements would be dropped."""
+    cfg = ctx.cfg(f)
+    rel = f.module.relpath
+    insts = []
+    for h in [n for n in cfg.nodes if n.kind == 'for']:
+        body = [n for n in cfg.nodes if _inside(n, h)]
+        has_sink = any(_is_sink(sub) for x in body for r in _roots(x) for sub in ast.walk(r))
+        if not has_sink:
+            continue
+        it = h.ast.iter
+        construct = f'ORDER: {stmt_text(it, 50)} is walked in input order'
+        reorder = None
+        for c in ast.walk(it):
+            if isinstance(c, ast.Call) and isinstance(c.func, ast.Name) and c.func.id in ('sorted', 'reversed', 'set', 'frozenset'):
+                reorder = c
+        if reorder is not None:
+            insts.append(Inst(
+                RULE, fname, construct, 'violation',
+                msg=(f"'{stmt_text(it, 80)}' re-orders the input before it is transferred: the native loader adds "
+                     f"elements in file order, and the order decides which of two equally named assets is renamed "
+                     f"(and which ids the counter hands out), so the loaded model differs from the native one"),
+                file=rel, line=h.lineno, props=props))
+        else:
+            insts.append(Inst(RULE, fname, construct, 'ok', file=rel, line=h.lineno, props=props, nontrivial=False))
+        for n in body:
+            if n.kind == 'stmt' and isinstance(n.ast, ast.Break) and n.loop is h:
+                insts.append(Inst(
+                    RULE, fname, f'NOBREAK: element loop over {stmt_text(it, 40)} runs to the end', 'violation',
+                    msg=(f"'break' at line {n.lineno} leaves the loop over {stmt_text(it, 60)}: the elements after the "
+                         f"current one are never transferred"),
+                    file=rel, line=n.lineno, props=props))
+    return insts
 
 
 def _path_avoiding(cfg, h, sink_idx):
